@@ -180,6 +180,18 @@ func (sb *seqbag) AddSequenceChar(name string, sequence []uint8, comment string)
 	return nil
 }
 
+// rebuildIndex rebuilds the name index after sequence names have been
+// modified in place. If several sequences share a name, the first one
+// (in sequence order) is indexed, consistently with GetSequenceIdByName.
+func (sb *seqbag) rebuildIndex() {
+	sb.seqmap = make(map[string]*seq, len(sb.seqs))
+	for _, s := range sb.seqs {
+		if _, ok := sb.seqmap[s.name]; !ok {
+			sb.seqmap[s.name] = s
+		}
+	}
+}
+
 // Append a string to all sequence names of the alignment
 // If right is true, then append it to the right of each names,
 // otherwise, appends it to the left
@@ -192,6 +204,7 @@ func (sb *seqbag) AppendSeqIdentifier(identifier string, right bool) {
 				seq.name = identifier + seq.name
 			}
 		}
+		sb.rebuildIndex()
 	}
 }
 
@@ -285,6 +298,7 @@ func (sb *seqbag) CleanNames(namemap map[string]string) {
 			namemap[old] = seq.name
 		}
 	}
+	sb.rebuildIndex()
 }
 
 // Removes all the sequences from the seqbag
@@ -808,6 +822,7 @@ func (sb *seqbag) Rename(namemap map[string]string) {
 		// 	io.PrintMessage("Sequence " + a.seqs[seq].name + " not present in the map file")
 		// }
 	}
+	sb.rebuildIndex()
 }
 
 // Shuffle the order of the sequences in the alignment
@@ -835,6 +850,7 @@ func (sb *seqbag) RenameRegexp(regex, replace string, namemap map[string]string)
 		namemap[sb.seqs[seq].name] = newname
 		sb.seqs[seq].name = newname
 	}
+	sb.rebuildIndex()
 	return nil
 }
 
@@ -1107,10 +1123,9 @@ func (sb *seqbag) TrimNames(namemap map[string]string, size int) error {
 			shortmap[newname] = true
 			namemap[seq.Name()] = newname
 		}
-		delete(sb.seqmap, seq.name)
 		seq.name = newname
-		sb.seqmap[seq.name] = seq
 	}
+	sb.rebuildIndex()
 
 	return nil
 }
@@ -1132,6 +1147,7 @@ func (sb *seqbag) TrimNamesAuto(namemap map[string]string, curid *int) (err erro
 		}
 		seq.name = newname
 	}
+	sb.rebuildIndex()
 	return
 }
 
